@@ -378,6 +378,10 @@ def resizeVerdict (xpix cols ypix rows wPix hPix : Nat) (w h : Int) (impl : Stri
           s!"FAIL cell size {cw}x{ch} is not the {ceilDiv pw.toNat sw}x{ceilDiv ph.toNat sh} cells that {pw}x{ph} px occupy"
         else if (cw : Int) > max 0 w ∨ (ch : Int) > max 0 h then s!"FAIL cell size {cw}x{ch} exceeds box {w}x{h}"
         else if cw > ceilDiv wPix sw ∨ ch > ceilDiv hPix sh then s!"FAIL upscaled to {cw}x{ch} cells"
+        else if (fields impl).contains "noencode" ∧ pw > 0 ∧ ph > 0 then
+          s!"FAIL image resized to {pw}x{ph} px but no data is pending transmission"
+        else if (fields impl).contains "empty" ∧ pw > 0 ∧ ph > 0 then
+          s!"FAIL image resized to {pw}x{ph} px but no sixel data was produced"
         else "ok"
       (v, cw, ch)
     | _, _, _, _ => ("FAIL unparsable result", 0, 0)
